@@ -314,9 +314,16 @@ func (r *Runner) Resolve(tag int, id Ident) *Obs {
 			vs, err := p.GetGroup(rt, id.Group)
 			o.Err = err
 			if err == nil {
-				o.RawGroup = vs
 				for _, v := range vs {
 					toEntry(v)
+				}
+				if r.W.Cfg != nil && r.W.Cfg.Scribble {
+					// the caller's own slice: reordered once it has been looked at
+					for i, j := 0, len(vs)-1; i < j; i, j = i+1, j-1 {
+						vs[i], vs[j] = vs[j], vs[i]
+					}
+				} else {
+					o.RawGroup = vs
 				}
 			}
 		case id.Key != "":
